@@ -41,6 +41,17 @@ off64_t _GD_GetIOPos(DIRFILE *D, gd_entry_t *E, off64_t index_pos)
 
   switch (E->field_type) {
     case GD_RAW_ENTRY:
+      /* a pending out-of-place write: the position is that of the write side */
+      if (E->e->u.raw.file[0].subenc != GD_ENC_UNKNOWN &&
+          (_GD_ef[E->e->u.raw.file[0].subenc].flags & GD_EF_OOP) &&
+          E->e->u.raw.file[1].idata >= 0 &&
+          (E->e->u.raw.file[0].mode & GD_FILE_WRITE))
+      {
+        pos = E->e->u.raw.file[1].pos + E->EN(raw,spf) *
+          D->fragment[E->fragment_index].frame_offset;
+        break;
+      }
+
       /* We must open the file to know its starting offset */
       if (E->e->u.raw.file[0].idata < 0)
         if (_GD_InitRawIO(D, E, NULL, -1, NULL, 0, GD_FILE_READ,
